@@ -265,9 +265,10 @@ def show_state(st) -> str:
 # evaluation
 # ------------------------------------------------------------------------------------------
 class World:
-    """domain + object table (problem objects and, optionally, domain constants)"""
+    """domain + object table.  Quantifiers range over the problem's objects AND the domain's constants (PDDL: constants
+    are objects of every problem of the domain)"""
 
-    def __init__(self, dom: RefDomain, objects: Dict[str, object], constants_in_range: bool = False):
+    def __init__(self, dom: RefDomain, objects: Dict[str, object], constants_in_range: bool = True):
         self.dom = dom
         self.objects = dict(objects)
         self.range_objects = dict(objects)
